@@ -368,8 +368,8 @@ func runC05(rc *RunCtx) {
 	rc.Out.Sample = map[string]any{"case": c.describe(), "config": p.String(), "reference": refCfg.String()}
 	dirRef := filepath.Join(rc.Dir, fmt.Sprintf("r%d-ref", rc.Index))
 	dirTest := filepath.Join(rc.Dir, fmt.Sprintf("r%d-test", rc.Index))
-	defer os.RemoveAll(dirRef)
-	defer os.RemoveAll(dirTest)
+	defer cleanup(dirRef)
+	defer cleanup(dirTest)
 	c.materialize(dirRef)
 	c.materialize(dirTest)
 	ref := rc.RunCmd(c.spec(dirRef, refCfg))
